@@ -1,6 +1,8 @@
 package main
 
 import (
+	"os"
+	"io/ioutil"
 	"bufio"
 	"bytes"
 	"fmt"
@@ -274,78 +276,163 @@ func init() {
 		return "ok " + showList(items)
 	}
 	// accessors derived from the fields
+	// taccess kind text: the accessors derived from the parsed fields.  Accessors are observations: the whole set
+	// is evaluated twice and the struct is shown before and after - "Pure=T" says that nothing changed (a second
+	// AbsFiles() gives the same paths, Files still holds the listed names, ...).
 	ops["taccess"] = func(a []string) string {
 		text := arg(a, 1)
 		rd := bufio.NewReader(strings.NewReader(text))
-		out := []string{}
+		var out []string
 		add := func(name string, v interface{}) { out = append(out, name+"="+showValue(reflect.ValueOf(v))) }
+		var snap func() string
+		var calls func()
 		switch arg(a, 0) {
 		case "dsc":
 			d, err := control.ParseDsc(rd, "/base/dir/x.dsc")
 			if err != nil {
 				return "err"
 			}
-			add("Maintainers", d.Maintainers())
-			add("HasArchAll", d.HasArchAll())
-			add("AbsFiles", d.AbsFiles())
-			ds, derr := d.DebianSource()
-			if derr != nil {
-				ds = "<none>"
+			snap = func() string { return showRecord(reflect.ValueOf(*d)) }
+			calls = func() {
+				add("Maintainers", d.Maintainers())
+				add("HasArchAll", d.HasArchAll())
+				add("AbsFiles", d.AbsFiles())
+				ds, derr := d.DebianSource()
+				if derr != nil {
+					ds = "<none>"
+				}
+				add("DebianSource", ds)
+				add("Filename", d.Filename)
 			}
-			add("DebianSource", ds)
-			add("Filename", d.Filename)
 		case "changes":
 			c, err := control.ParseChanges(rd, "/base/dir/x.changes")
 			if err != nil {
 				return "err"
 			}
-			add("AbsFiles", c.AbsFiles())
-			add("Filename", c.Filename)
+			snap = func() string { return showRecord(reflect.ValueOf(*c)) }
+			calls = func() {
+				add("AbsFiles", c.AbsFiles())
+				add("Filename", c.Filename)
+			}
 		case "control":
 			c, err := control.ParseControl(rd, "/base/dir/control")
 			if err != nil {
 				return "err"
 			}
-			add("Maintainers", c.Source.Maintainers())
+			snap = func() string { return showRecord(reflect.ValueOf(c.Source)) }
+			calls = func() { add("Maintainers", c.Source.Maintainers()) }
 		case "binary_index":
 			xs, err := control.ParseBinaryIndex(rd)
 			if err != nil || len(xs) == 0 {
 				return "err"
 			}
 			x := xs[0]
-			add("SourcePackage", x.SourcePackage())
-			add("GetDepends", x.GetDepends())
-			add("GetConflicts", x.GetConflicts())
-			add("GetPreDepends", x.GetPreDepends())
-			add("GetBreaks", x.GetBreaks())
+			snap = func() string { return showRecord(reflect.ValueOf(x)) }
+			calls = func() {
+				add("SourcePackage", x.SourcePackage())
+				add("GetDepends", x.GetDepends())
+				add("GetConflicts", x.GetConflicts())
+				add("GetPreDepends", x.GetPreDepends())
+				add("GetBreaks", x.GetBreaks())
+			}
 		case "source_index":
 			xs, err := control.ParseSourceIndex(rd)
 			if err != nil || len(xs) == 0 {
 				return "err"
 			}
 			x := xs[0]
-			add("GetBuildDepends", x.GetBuildDepends())
-			add("GetBuildDependsIndep", x.GetBuildDependsIndep())
+			snap = func() string { return showRecord(reflect.ValueOf(x)) }
+			calls = func() {
+				add("GetBuildDepends", x.GetBuildDepends())
+				add("GetBuildDependsIndep", x.GetBuildDependsIndep())
+			}
 		case "best_checksums":
 			var b control.BestChecksums
 			if err := control.Unmarshal(&b, rd); err != nil {
 				return "err"
 			}
-			cs := []string{}
-			for _, c := range b.Checksums() {
-				cs = append(cs, showFileHash(c))
+			snap = func() string { return showRecord(reflect.ValueOf(b)) }
+			calls = func() {
+				cs := []string{}
+				for _, c := range b.Checksums() {
+					cs = append(cs, showFileHash(c))
+				}
+				out = append(out, "Checksums="+showList(cs))
 			}
-			out = append(out, "Checksums="+showList(cs))
 		case "deb_control":
 			var c deb.Control
 			if err := control.Unmarshal(&c, rd); err != nil {
 				return "err"
 			}
-			add("SourceName", c.SourceName())
+			snap = func() string { return showRecord(reflect.ValueOf(c)) }
+			calls = func() { add("SourceName", c.SourceName()) }
 		default:
 			return "no-such-type"
 		}
-		return "ok " + strings.Join(out, " ")
+		before := snap()
+		calls()
+		first := out
+		out = nil
+		calls()
+		pure := before == snap() && strings.Join(first, " ") == strings.Join(out, " ")
+		res := "ok " + strings.Join(first, " ")
+		if !pure {
+			res += " Pure=F"
+		}
+		return res
+	}
+	// tdocfile kind text: the file-based parsers (ParseDscFile, ParseChangesFile, ParseControlFile) on a real file
+	// against the reader-based ones given the same path
+	ops["tdocfile"] = func(a []string) string {
+		text := arg(a, 1)
+		f, err := ioutil.TempFile("/var/tmp", "verif-doc-*")
+		if err != nil {
+			return "harness-error"
+		}
+		name := f.Name()
+		defer os.Remove(name)
+		f.WriteString(text)
+		f.Close()
+		rd := bufio.NewReader(strings.NewReader(text))
+		show := func(v interface{}, err error) string {
+			if err != nil {
+				return "err"
+			}
+			return "ok " + showRecord(reflect.ValueOf(v).Elem())
+		}
+		var r1, r2 string
+		switch arg(a, 0) {
+		case "dsc":
+			x, e := control.ParseDsc(rd, name)
+			r1 = show(x, e)
+			y, e2 := control.ParseDscFile(name)
+			r2 = show(y, e2)
+		case "changes":
+			x, e := control.ParseChanges(rd, name)
+			r1 = show(x, e)
+			y, e2 := control.ParseChangesFile(name)
+			r2 = show(y, e2)
+		case "control":
+			x, e := control.ParseControl(rd, name)
+			y, e2 := control.ParseControlFile(name)
+			sc := func(c *control.Control, err error) string {
+				if err != nil || c == nil {
+					return "err"
+				}
+				items := []string{showRecord(reflect.ValueOf(c.Source))}
+				for _, b := range c.Binaries {
+					items = append(items, showRecord(reflect.ValueOf(b)))
+				}
+				return "ok " + strings.Join(items, " ## ")
+			}
+			r1, r2 = sc(x, e), sc(y, e2)
+		default:
+			return "no-such-type"
+		}
+		if r1 != r2 {
+			return "diff reader " + r1 + " file " + r2
+		}
+		return "same"
 	}
 	// typed documents through their own parsers
 	ops["tdoc"] = func(a []string) string {
